@@ -6,7 +6,7 @@ COMMON_TRUST = [
 ]
 PROPS = {
     "C03": dict(
-        units=["circuit", "cbcall"],
+        units=["circuit", "cbcall", "builders"],
         title="Open circuit breaker shields the inner service",
         level_text="Deductive proof (Verus) of contracts on the real bodies of Circuit::{try_acquire,transition_to,record_*,evaluate_window,force_open}: "
                    "while Open a call is admitted only after wait_duration_in_open has elapsed on the (monotone, explicit) clock, rejected calls leave the state unchanged, "
@@ -33,7 +33,7 @@ PROPS = {
         excluded=["rounding-level disagreement between the f64 rate and the rational rate (the specification is the f64 comparison)"],
     ),
     "C09": dict(
-        units=["circuit", "cbcall"],
+        units=["circuit", "cbcall", "builders"],
         title="Half-open admits at most the permitted trial calls",
         level_text="Deductive proof (Verus) with a ghost count of trials admitted since entering half-open. The property clause (admitted ⇒ trials < permitted) FAILS on the real code and is a known finding; "
                    "the companion clauses that do hold (admission iff completed trials < permitted; state untouched; ghost trials counted exactly) are proved so further regressions are still caught.",
@@ -73,7 +73,7 @@ PROPS["C07"] = dict(
 )
 
 PROPS["C05"] = dict(
-    units=["retry"],
+    units=["retry", "builders3"],
     title="Retry: bounded attempts, last outcome",
     level_text="Deductive proof (Verus) on the real retry loop (whole body of Retry::call, RetryPolicy::{should_retry,next_backoff}, MaxAttemptsSource::get_max_attempts): for every request, predicate, "
                "backoff function, budget and every sequence of inner outcomes, 1 <= attempts <= max(1,max_attempts); the result is exactly the last inner outcome; a retry happens only after an error the predicate "
@@ -154,7 +154,7 @@ PROPS["C15"] = dict(
 )
 
 PROPS["C16"] = dict(
-    units=["reconnect"],
+    units=["reconnect", "builders3"],
     title="Reconnect retries only connection failures, a bounded number of times",
     level_text="Deductive proof (Verus) on the real hand-written future ReconnectFuture::poll (pin projection erased), ReconnectService::call, ReconnectConfig::should_reconnect, ReconnectPolicy::delay_for_attempt and the "
                "published-state functions: an invariant of the future between polls (Calling: calls == attempt+1; Sleeping: the pending sleep is exactly policy.delay_for_attempt(attempt), the stored error is the last inner "
@@ -258,12 +258,18 @@ PROPS["C14"] = dict(
         dict(name="backoff_zero_initial_stays_zero", crate="backoff", harness="backoff_zero_initial_stays_zero", tags=["C14"],
              claim="a zero initial interval yields a zero delay for every attempt, multiplier and cap (initial x multiplier^attempt == 0 even after the power overflowed to +inf)",
              assumes=["f64::powi contract as above"]),
+        dict(name="backoff_saturates_at_the_cap", crate="backoff", harness="backoff_saturates_at_the_cap", tags=["C14", "C05"],
+             claim="once multiplier^attempt has overflowed to +inf, a positive initial interval yields EXACTLY the cap (Duration::MAX without one): the delay never falls back below earlier delays at saturation (the saturating end of monotonicity)",
+             assumes=["f64::powi contract as above"]),
+        dict(name="backoff_positive_stays_positive", crate="backoff", harness="backoff_positive_stays_positive", tags=["C14", "C05"],
+             claim="a positive initial interval and a positive (or absent) cap never yield a zero delay, for every attempt and multiplier in [1,10]",
+             assumes=["f64::powi contract as above"]),
         dict(name="backoff_cover", crate="backoff", harness="backoff_cover", tags=["C14"], claim="vacuity guard: cap reached / below cap / attempt beyond i32::MAX are all reachable under the harness assumptions"),
     ],
     title="Backoff delays are total, monotone and capped",
     level_text="Kani (CBMC), loop-free harnesses over the FULL input domain on the functions extracted from /repo on every run (capped_exponential, ExponentialRandomBackoff::randomize): total, never above max_interval, "
                "exponent saturates, jitter never panics. Verus: ReconnectPolicy::delay_for_attempt and RetryPolicy::next_backoff delegate to exactly the configured interval function for this attempt.",
-    level_note="f64::powi is abstracted by an assumed contract (CBMC's own model costs minutes); 'equal to initial x multiplier^attempt below the cap' is the extracted text itself; MONOTONICITY in the attempt number is NOT decided: "
+    level_note="f64::powi is abstracted by an assumed contract (CBMC's own model costs minutes); 'equal to initial x multiplier^attempt below the cap' is the extracted text itself; MONOTONICITY in the attempt number is decided only at its two ends (zero stays zero; a positive interval never yields zero and yields exactly the cap once the power has overflowed); in between it is NOT decided: "
                "it needs IEEE monotonicity of x*m, of from_secs_f64 and of powi in the exponent — all three were tried as Kani leaves and did not close in 20 min, they are named assumptions, not obligations.",
     technique="Kani function-level proofs (loop-free, full domain) on mechanically extracted functions; Verus for the delegation",
     design_ref="§6 C14",
@@ -283,7 +289,8 @@ _EST = dict(name="estimate_wait_positive_when_full_small", crate="leaves", harne
             bounded="previous_count in 0..=3 (enumerated), limit_for_period in 1..=4, current_count <= limit, bucket = 1 s, elapsed/bucket in [0, 0.999999] symbolic f64",
             claim="BOUNDED: when no slot is free the sliding counter's wait estimate is >= 1 microsecond of a 1 s bucket, so Ok(ZERO) is only ever returned together with a counted admission "
                   "(the unbounded harness estimate_wait_positive_when_full does not close in 20 min and stays a named assumption)")
-for _p, _h in (("C02", [_EST]), ("C15", [_EST])):
+_SAT = [h for h in PROPS["C14"]["kani"] if h["name"] in ("backoff_saturates_at_the_cap", "backoff_positive_stays_positive")]
+for _p, _h in (("C02", [_EST]), ("C15", [_EST]), ("C05", _SAT)):
     PROPS[_p]["kani"] = PROPS[_p].get("kani", []) + _h
 
 PROPS["C20"] = dict(
